@@ -30,7 +30,15 @@ META = {
                    'the master equal to the version and records the overwritten state as the newest version (C20_restore_spec); '
                    'an operation on one master never changes the version list of another and every version only ever holds a '
                    'state of its own master, for all histories incl. failing updates (C20_masters_disjoint).'),
-    'level_note': ('Trusted: Lean kernel; the sampling correspondence; SQLite returns `obj.versions` (no ORDER BY) in id order. '
+    'level_note': ('TRANSLATOR tie (vlib/extractors/pyversion.py -> Extracted/PyVersion.lean, Model/PyVersion.lean, Model/VersionX.lean, '
+                   'Model/VersionXC.lean): the whole of sqlobject/versioning/__init__.py is translated from the AST on every run; '
+                   'C20_translated_rowUpdate/restore/get/select/nextVersion/getattr/getColumns/addtoclass/setup_eq_model prove the '
+                   'translated functions equal to the model steps (rowUpdate = the snapshot of vUpdateVec, restore = dstep restore, '
+                   '__get__ = versionsOf per connection, getColumns/__addtoclass__ = stripped column copies + the two listeners) for all '
+                   'inputs, calls into SQLObject (asDict, constructor, get, set below its signal, SQLObject.select, type, events.listen) '
+                   'being the parameters stated in the headers of Model/VersionX.lean and Model/VersionXC.lean; getChangedFields is '
+                   'translated and run on a witness only. '
+                   'Trusted: Lean kernel; the sampling correspondence; SQLite returns `obj.versions` (no ORDER BY) in id order. '
                    'dateArchived is abstracted to the insertion sequence (version id).'),
     'rule': ('cases = (unique first column or not, history of <= 20 ops create/assign/set/restore over <= 4 masters of a fresh '
              'versioned class with 3 int columns, incl. rejected values, unknown keywords, UNIQUE violations, empty set(); '
@@ -44,7 +52,9 @@ META = {
     'modelled': ['validation abstracted to {int, None, rejected value}; UPDATE rejection modelled by a UNIQUE first column',
                  'versioned inheritable classes and extraCols are outside the model',
                  'destroying a master is not part of the quantifier (create/assign/set/restore)'],
-    'assumptions': ['the theorem versions_are_history holds for histories without a failing update only: the code snapshots on '
+    'assumptions': ['translated functions: the interface assumptions in the headers of Model/VersionX.lean / Model/VersionXC.lean; '
+                    'column keywords distinct and none of id/masterID/dateArchived; the master class is not inheritable (childName None)',
+                    'the theorem versions_are_history holds for histories without a failing update only: the code snapshots on '
                     'the before-event (known finding ' + KEY_FAILED + ')',
                     'one live instance per row and connection (the identity map, C04); the cache=False stream checks that the '
                     'held master shows the row after every step'],
